@@ -74,10 +74,10 @@ _info_cache = {}
 
 
 def info(fn):
-    k = id(fn)
-    if k not in _info_cache:
-        _info_cache[k] = LocalInfo(fn)
-    return _info_cache[k]
+    li = fn.__dict__.get("_local_info")
+    if li is None:
+        li = fn.__dict__["_local_info"] = LocalInfo(fn)
+    return li
 
 
 def _ctype(t):
